@@ -2,5 +2,7 @@ SPECIFICATION Spec
 CONSTANTS Kind = "str"
           FullLen = 2
           RepLen = 3
+          RepPrefixes = {1, 6}
+          RepQuotes = {1}
 INVARIANT Emit
 CHECK_DEADLOCK FALSE
